@@ -1,12 +1,16 @@
 package main
 
 import (
+	"encoding/json"
 	"errors"
+	"fmt"
+	"strconv"
 	"strings"
 	"sync"
 	"time"
 
 	"github.com/my-cloud/ruthenium/validatornode/application"
+	"github.com/my-cloud/ruthenium/validatornode/infrastructure/configuration"
 )
 
 // ---- capturing logger -------------------------------------------------------
@@ -83,19 +87,71 @@ type Settings struct {
 	Timeout  time.Duration
 	Interval int64 // ns
 	VerifCnt int64
+
+	mu       sync.Mutex
+	cache    *configuration.ProtocolSettings
+	cacheKey string
 }
 
-func (s *Settings) BlocksCountLimit() uint64               { return s.Limit }
-func (s *Settings) GenesisAmount() uint64                  { return s.Genesis }
-func (s *Settings) HalfLifeInNanoseconds() float64         { return s.HalfLife }
-func (s *Settings) IncomeBase() uint64                     { return s.Base }
-func (s *Settings) IncomeLimit() uint64                    { return s.ILimit }
-func (s *Settings) MinimalTransactionFee() uint64          { return s.Fee }
-func (s *Settings) SmallestUnitsPerCoin() uint64           { return s.Units }
-func (s *Settings) ValidationTimeout() time.Duration       { return s.Timeout }
-func (s *Settings) ValidationTimer() time.Duration         { return time.Duration(s.Interval) }
-func (s *Settings) ValidationTimestamp() int64             { return s.Interval }
-func (s *Settings) VerificationsCountPerValidation() int64 { return s.VerifCnt }
+// The node never reads these fields directly: every getter goes through the repository's own
+// decoder of the protocol settings (configuration.ProtocolSettings), fed with a settings document
+// built from the fields. The fields stay the harness's (and the model's) intended values, so a slip
+// in the decoder shows up as a disagreement between the node and the model.
+func (s *Settings) real() *configuration.ProtocolSettings {
+	digits := 0
+	for u := s.Units; u >= 10; u /= 10 {
+		digits++
+	}
+	timeoutSec := int64(s.Timeout / time.Second)
+	if time.Duration(timeoutSec)*time.Second != s.Timeout {
+		// a sub-second test timeout cannot be written in the document: a value that differs from the
+		// interval is written instead and ValidationTimeout() answers the field itself
+		timeoutSec = s.Interval/int64(time.Second) + 7
+	}
+	js := fmt.Sprintf(`{"blocksCountLimit":%d,"coinDigitsCount":%d,"genesisAmount":%d,"halfLifeInDays":%s,"incomeBase":%d,"incomeLimit":%d,"minimalTransactionFee":%d,"validationIntervalInSeconds":%d,"validationTimeoutInSeconds":%d,"verificationsCountPerValidation":%d}`,
+		s.Limit, digits, s.Genesis, strconv.FormatFloat(s.HalfLife/8.64e13, 'g', -1, 64), s.Base, s.ILimit, s.Fee, s.Interval/int64(time.Second), timeoutSec, s.VerifCnt)
+	s.mu.Lock()
+	defer s.mu.Unlock()
+	if s.cache != nil && s.cacheKey == js {
+		return s.cache
+	}
+	ps := new(configuration.ProtocolSettings)
+	if err := json.Unmarshal([]byte(js), ps); err != nil {
+		panic(err)
+	}
+	s.cache, s.cacheKey = ps, js
+	return ps
+}
+
+func (s *Settings) BlocksCountLimit() uint64 { return s.real().BlocksCountLimit() }
+func (s *Settings) GenesisAmount() uint64    { return s.real().GenesisAmount() }
+func (s *Settings) HalfLifeInNanoseconds() float64 {
+	// days -> nanoseconds may round in the last place; anything beyond that is the decoder's doing
+	if d := s.real().HalfLifeInNanoseconds(); d > s.HalfLife*(1+1e-12) || d < s.HalfLife*(1-1e-12) {
+		return d
+	}
+	return s.HalfLife
+}
+func (s *Settings) IncomeBase() uint64            { return s.real().IncomeBase() }
+func (s *Settings) IncomeLimit() uint64           { return s.real().IncomeLimit() }
+func (s *Settings) MinimalTransactionFee() uint64 { return s.real().MinimalTransactionFee() }
+func (s *Settings) SmallestUnitsPerCoin() uint64 {
+	if s.Units == 0 {
+		return 0
+	}
+	return s.real().SmallestUnitsPerCoin()
+}
+func (s *Settings) ValidationTimeout() time.Duration {
+	if s.Timeout%time.Second != 0 {
+		return s.Timeout
+	}
+	return s.real().ValidationTimeout()
+}
+func (s *Settings) ValidationTimer() time.Duration { return s.real().ValidationTimer() }
+func (s *Settings) ValidationTimestamp() int64     { return s.real().ValidationTimestamp() }
+func (s *Settings) VerificationsCountPerValidation() int64 {
+	return s.real().VerificationsCountPerValidation()
+}
 
 // ---- proof-of-humanity script ----------------------------------------------
 type ScriptHumans struct {
